@@ -36,7 +36,14 @@ def gen_file(rng, base=None):
         sections = {t: [("%s-%s" % (t[:3], n[-6:].replace("/", "_")), sizes[n], n) for n in names] for t in types}
     else:
         sections = {t: list(es) for t, es in base["sections"].items()}
-    return {"sections": sections, "signed": False, "noise": []}
+    # the unrelated fields real release files carry; InRelease and Release of one publishing run have them in common
+    if base is not None and rng.random() < 0.7:
+        noise = list(base["noise"])
+    else:
+        noise = rng.sample(["Date: Sat, 14 Mar 2026 08:%02d:11 UTC" % rng.choice([0, 0, 17]), "Valid-Until: Sat, 21 Mar 2026 08:00:00 UTC",
+                            "Suite: stable", "Codename: c0", "Version: 12.%d" % rng.randint(0, 3), "Architectures: amd64 i386",
+                            "Components: main contrib", "Description: a test archive", "Acquire-By-Hash: yes"], rng.randint(0, 5))
+    return {"sections": sections, "signed": False, "noise": noise}
 
 
 def mutate(rng, f):
@@ -48,7 +55,8 @@ def mutate(rng, f):
     if kind == "perm":
         for k in secs:
             rng.shuffle(secs[k])
-        g["noise"] = ["Date: Thu, 01 Jan 1970 00:00:00 UTC", "Suite: x"]
+        if rng.random() < 0.5:
+            g["noise"] = ["Date: Thu, 01 Jan 1970 00:00:00 UTC", "Suite: x"]
     elif kind == "size" and secs[t]:
         i = rng.randrange(len(secs[t]))
         h, s, n = secs[t][i]
@@ -272,11 +280,22 @@ def loop_case(rep, rng, sb, tag):
             # same Last-Modified: then the length differs (a file's date or size changes whenever its content does)
             bad_body = bad_body.replace(b"Origin: sim\n", b"Origin: sim-stale\n", 1)
         bad = sim.Resp("ok", announced=len(bad_body), date=mtime if same_date else mtime - 7, body=bad_body, chunks=64)
-    faults = {url: {pth: {"first": [bad] * min(k, 40), "rest": good_resp if k < 99 else bad}}}
+    # ... or an outage: every release flavour of the codename answers 5xx for exactly k full fetch rounds (ten
+    # requests each) and is fine afterwards - the later rounds must ask again
+    outage = rng.random() < 0.35
+    if outage:
+        what = "outage"
+        err = sim.Resp("error")
+        faults = {url: {f"dists/{cn}/{fl}": {"first": [err] * min(10 * k, 400), "rest": "good" if k < 99 else err}
+                        for fl in ("InRelease", "Release", "Release.gpg")}}
+    else:
+        faults = {url: {pth: {"first": [bad] * min(k, 40), "rest": good_resp if k < 99 else bad}}}
     res = P.run_tool(scn, base, faults=faults, upstream_files=files)
     up = res.ups[url.rstrip("/")]
     other = f"dists/{cn}/{'InRelease' if victim == 'Release' else 'Release'}"
     rounds = up.counts.get(other, 0)
+    if outage:
+        rounds = (rounds + 9) // 10
     ok = res.code == 0
     eff = max(1, retries)
     want_rounds, want_ok = min(k + 1, eff), k < eff
@@ -284,9 +303,10 @@ def loop_case(rep, rng, sb, tag):
           "scenario": {"repos": scn.repos, "nthreads": scn.nthreads}}
     rep.case(("loop", retries, min(k, 6), ok, prior, same_date), sample={"retries": retries, "bad_rounds": k, "rounds": rounds, "exit": res.code})
     rep.count(f"loop.ok.{ok}")
+    rep.count(f"loop.kind.{'outage' if outage else what}")
     if (rounds, ok) != (want_rounds, want_ok):
         found = True
-        rep.violation(f"release files disagree ({what}) in the first {k} fetch rounds, release_files_retries={retries}: "
+        rep.violation(f"release files {'unavailable (5xx)' if outage else 'disagree (' + what + ')'} in the first {k} fetch rounds, release_files_retries={retries}: "
                       f"{rounds} rounds and exit {res.code}; the statement gives {want_rounds} rounds and "
                       f"{'success' if want_ok else 'failure'}",
                       {"kind": "oracle", "tie": "loop", "case": jc}, tags={"oracle": "rounds"})
